@@ -3,7 +3,7 @@
     always live: inside [boolean_operation] every event is owned by the queue or by the
     vector of processed events for the whole call). *)
 From Coq Require Import Bool ZArith NArith PArith List FMapPositive.
-From GB Require Import Num.
+From GB Require Import Num Prim.
 Import ListNotations.
 Set Implicit Arguments.
 
@@ -98,7 +98,7 @@ Definition dummy_event : event :=
   new_event 0%N (mkPt N (pinfX N) (pinfY N)) false None false false.
 
 Definition getE (st : store) (i : eid) : event :=
-  match PositiveMap.find i (st_map st) with Some e => e | None => dummy_event end.
+  match pfind i (st_map st) with Some e => e | None => dummy_event end.
 
 Definition alloc (st : store) (e : event) : store * eid :=
   (mkStore (PositiveMap.add (st_next st) e (st_map st)) (Pos.succ (st_next st)), st_next st).
